@@ -58,11 +58,21 @@ pub trait Interface: ErrorHandler {
     /// occurs, the error is passed to the error handler, the rest of the
     /// faulty program message (up to and including its terminator) is
     /// discarded and execution continues with the next program message.
-    async fn run<'a>(&mut self, mut input: &'a [u8], response: &mut impl crate::Write) -> &'a [u8] {
+    async fn run<'a>(&mut self, input: &'a [u8], response: &mut impl crate::Write) -> &'a [u8] {
         let mut header = self.root_node();
+        self.run_from(&mut header, input, response).await
+    }
 
+    /// Same as [Interface::run], but starts at the supplied header path and
+    /// leaves the header path that is in effect where the consumed input ends
+    /// in it. This allows to continue an incomplete program message.
+    #[doc(hidden)]
+    async fn run_from<'a>(
+        &mut self, header: &mut &'static tree::Node, mut input: &'a [u8],
+        response: &mut impl crate::Write,
+    ) -> &'a [u8] {
         while !input.is_empty() {
-            let result = parser::parse(self.root_node(), header, input);
+            let result = parser::parse(self.root_node(), *header, input);
 
             #[cfg(feature = "defmt")]
             defmt::trace!("Run: {:?}", input);
@@ -82,7 +92,7 @@ pub trait Interface: ErrorHandler {
                 match input.iter().position(|b| *b == b'\n') {
                     Some(position) => {
                         input = &input[position + 1..];
-                        header = self.root_node();
+                        *header = self.root_node();
                         continue;
                     }
                     None => return input,
@@ -100,17 +110,17 @@ pub trait Interface: ErrorHandler {
 
                 if call.terminated {
                     // Reset the header to the root node if a call is ended with a terminator.
-                    header = self.root_node();
+                    *header = self.root_node();
                 }
                 else if let Some(call_header) = call.header {
                     // Update the current header, if the current command is not a common command.
-                    header = call_header;
+                    *header = call_header;
                 }
             }
             else {
                 // An empty program message unit is ended by a terminator, which
                 // resets the header path as well.
-                header = self.root_node();
+                *header = self.root_node();
             }
 
             input = i;
@@ -124,6 +134,9 @@ pub trait Interface: ErrorHandler {
     
         let mut proc_offset = 0;
         let mut read_offset = 0;
+
+        // The header path is kept while a program message is continued by the next read.
+        let mut header = self.root_node();
     
         loop {
             let count = adapter.read(&mut cmd_buf[read_offset..]).await?;
@@ -137,7 +150,7 @@ pub trait Interface: ErrorHandler {
                 let terminator_pos = read_offset + position;
                 let data = &cmd_buf[proc_offset..=terminator_pos];
     
-                let remaining = self.run(data, &mut res_buf).await;
+                let remaining = self.run_from(&mut header, data, &mut res_buf).await;
 
                 if !res_buf.is_empty() {
                     adapter.write(&res_buf).await?;
@@ -169,6 +182,7 @@ pub trait Interface: ErrorHandler {
                 #[cfg(feature = "defmt")]
                 defmt::warn!("SCPI buffer overflow, resetting buffer");
                 read_offset = 0;
+                header = self.root_node();
             }
         }
     }
